@@ -3,7 +3,7 @@ from checks import both, EX
 CHECK = {
     'level': 'exploration',
     'rule': ('[keys and shapes] a fourth key family of boundary keys (0, 1, SIZE_MAX, SIZE_MAX-1, 2^63+-1, 2^32+-1, 2^31 ...) in own closure scopes and a quarter of the random histories, tracked as FIRST key after init / resize / completed rehash / clear; exact doublings 3->6, 5->10, 7->14, 6->12, 4->8; cstl_hash_div/mul passed directly; visitors of find/foreach/foreach_const call size/load and a nested foreach_const on the same table and work a bystander table; everything but resize/shrink_to_fit runs with a refusing allocator in every second case; '
-             '[work as memory touched] on tables of 2^15..2^17 buckets (bucket array of hundreds of pages) every keyed call of an incremental rehash -- including the call that completes it, after an odd and an even number of earlier rehashes -- runs with the pages of the bucket array access-protected; a SIGSEGV handler counts and re-opens each page touched: at most 64 pages per call (7 observed), whatever the table size (configuration rel-native); [forced finish] on tables of 3000..16384 buckets a resize is followed by 1100..3600 keyed calls and then the rehash is forced to finish by rehash / foreach / a further resize / shrink_to_fit: every element is found and enumerated once afterwards; '
+             '[work as memory touched] on tables of 2^15..2^17 buckets (bucket array of hundreds of pages) every keyed call of an incremental rehash -- including the call that completes it, after an odd and an even number of earlier rehashes -- runs with the pages of the bucket array access-protected; a SIGSEGV handler counts and re-opens each page touched: at most 64 pages per call (7 observed), whatever the table size (configuration rel-native); [nearly empty big table] the last three elements of a 2^15..2^17-bucket table with a pending resize are erased under the page monitor (also the erase that empties the table); [forced finish] a further resize far beyond the capacity while a grow is partly worked off; later lives of the table object (clear, large first resize, fill, geometry change) after odd and even numbers of resizes; on tables of 3000..16384 buckets a resize is followed by 1100..3600 keyed calls and then the rehash is forced to finish by rehash / foreach / a further resize / shrink_to_fit: every element is found and enumerated once afterwards; '
              'single-table and two-table closure over resize requests (grow, shrink, same size with another function, back '
              'to the previous geometry, repeated, f=NULL) interleaved with keyed calls on unique keys, every hash function '
              'wrapped by a logging trampoline; oracles: load == size/n right after each satisfiable resize; per keyed call the '
